@@ -339,6 +339,9 @@ type cnFail struct {
 	sig, what string
 }
 
+// errStop ends the pipeline of an instance without a violation.
+var errStop = &cnFail{}
+
 func guard(f func() *cnFail) (out *cnFail) {
 	defer func() {
 		if r := recover(); r != nil {
@@ -351,6 +354,12 @@ func guard(f func() *cnFail) (out *cnFail) {
 
 // checkNames compares names read from an artefact with the request.
 func (e *certsEnv) checkNames(stage string, v *cnVec, r *cnRequest, ids []string, idErr error, dns []string, ips []net.IP, san []byte) *cnFail {
+	if idErr != nil && !r.wellfmd {
+		// outside the property's quantifier (not UTF-8 / not IA5 / not an IP): an error on reading back is fine
+		e.res.count(stage + "_unreadable_malformed_input")
+
+		return errStop
+	}
 	if idErr != nil {
 		return &cnFail{"C20:" + stage + "-names-unreadable", fmt.Sprintf("the %s made by the tooling for node ids %s (byte lengths %v) does not let them be read back: %v",
 			stage, q(r.IDs), lens(r.IDs), idErr)}
@@ -615,6 +624,11 @@ func (e *certsEnv) cli(v *cnVec, r *cnRequest, dir string) *cnFail {
 
 			return nil
 		}
+		if !r.wellfmd {
+			e.res.count("cli_signreq_refused_malformed_input")
+
+			return nil
+		}
 		if strings.Contains(err.Error(), "asn1") || strings.Contains(err.Error(), "structure") {
 			return &cnFail{"C20:cli-req-names-unreadable", fmt.Sprintf("SignReq cannot read the names of the request MakeReq wrote for ids of %v bytes: %v", lens(r.IDs), err)}
 		}
@@ -639,6 +653,9 @@ func (e *certsEnv) decode(v *cnVec, vi, k int) (*cnFail, any) {
 	var legacy [][]byte
 	for _, en := range v.Entries {
 		s := genString(rng, en.Len, en.CS)
+		if en.Kind == "id_ber" && len(s) > 100 {
+			s = s[:100] // the BER form used here has a single length octet after 0x81
+		}
 		switch en.Kind {
 		case "dns":
 			es = append(es, sanEntry{Kind: "dns", Text: "d.example.test"})
@@ -799,6 +816,9 @@ func init() {
 					env.dmu.Unlock()
 				}
 				f := guard(func() *cnFail { return env.pipeline(v, r, rng) })
+				if f == errStop {
+					f = nil
+				}
 				if f != nil {
 					res.violate(f.sig, f.what, map[string]any{"vector": v, "request": r.forReplay(), "path": "library"})
 				}
@@ -807,6 +827,9 @@ func init() {
 					cf := guard(func() *cnFail { return env.cli(v, r, d) })
 					dirs <- d
 					res.count("cli_runs")
+					if cf == errStop {
+						cf = nil
+					}
 					if cf != nil {
 						res.violate(cf.sig, cf.what, map[string]any{"vector": v, "request": r.forReplay(), "path": "cli"})
 					}
